@@ -1,101 +1,149 @@
 (* C03 — a Runtime stays consistent and reusable after every kind of abrupt outcome.
    ONLY theorem statements; each is closed by [exact] of a lemma of C03/Proofs.v.
-   Model: C03/Model.v ([fixed = false] is goja's bookkeeping algorithm as on the current tree, [fixed = true] the
-   repaired algorithm). *)
+   Model: C03/Model.v.  [fixed = false] is goja's bookkeeping algorithm as on the current tree (I), [fixed = true] the
+   repaired algorithm (S); wherever I deviates from S the ghost field [leaked] grows (ids 16, 21, 22 = the open findings).
+   An execution tree is a [node] (19 kinds: run-loop items and native actions); [api] is one outermost API call;
+   [exec]/[api_exec] take fuel, [RStuck]/[OStuck] = out of fuel or an ill-formed tree (a native action among run-loop
+   items or vice versa). *)
 From Coq Require Import List ZArith Bool Arith.
 Import ListNotations.
 From Verif.C03 Require Import Model Proofs.
 Open Scope Z_scope.
 
-(* 1. The snapshot/restore lemma of handleThrow, for EVERY state: take any state s0 at which a try frame tf
-      (a JS catch/finally frame or a tryPanicMarker frame) is pushed, and ANY later state s that piled contexts xs
-      on the call stack (the lowest one saving s0's frame registers), iterator records ys, k references and frames
-      that the payload skips (dead frames; for an uncatchable payload every non-marker frame) on top of s0's stacks,
-      with arbitrary sp/sb/prg/stash.  Unwinding from s lands exactly on s0's call stack, iterator stack, reference
-      stack, scope, frame registers and sp (+1 for the caught value), with tf on top of s0's try stack, closing
-      exactly the dropped iterators, and reports the handler kind of tf. *)
-Theorem handleThrow_restores : forall p m c f s0 above s xs ys k,
-  let tf := new_frame m c f s0 in
-  skippable p tf = false ->
-  forallb (skippable p) above = true ->
-  ts s = above ++ tf :: ts s0 ->
-  extends s0 s xs ys k ->
-  let s' := fst (handle_throw p s) in
+(* 1. idle_restored_partial — for EVERY API call (every execution tree), every call-depth limit, every fault plan and
+      every fuel: if the runtime is idle before the call, the call does not get stuck, and the execution does not run
+      into one of the recorded deviations (the guard: the repaired algorithm, or the ghost list of deviations did not
+      grow), then after the call sp, sb, args, prg, the scope and all four stacks are back at their idle values. *)
+Theorem idle_restored_partial : forall lim faults fixed fuel a st,
+  idle_regs st = true ->
+  snd (api_exec lim faults fixed fuel a st) <> RStuck ->
+  no_new_deviation fixed st (fst (api_exec lim faults fixed fuel a st)) ->
+  idle_regs (fst (api_exec lim faults fixed fuel a st)) = true.
+Proof. exact Proofs.idle_restored_partial. Qed.
+
+(* 2. idle_restored — the repaired algorithm needs no guard. *)
+Theorem idle_restored : forall lim faults fuel a st,
+  idle_regs st = true ->
+  snd (api_exec lim faults true fuel a st) <> RStuck ->
+  idle_regs (fst (api_exec lim faults true fuel a st)) = true.
+Proof. exact Proofs.idle_restored. Qed.
+
+Example idle_restored_nonvacuous :
+  (* limit 7, a JS exception at the 3rd probe inside a for-of inside try inside a native callback inside a getter *)
+  let a := ACall [Getter [Native [NCallable true [Try [ForOf 1 [Probe] 2 [Scope [Probe; RefCall [Probe]]]] [Effect 1] [Rec] true true]]]; Probe] in
+  let r := api_exec (Some 7%nat) [(2%nat, FThrow)] false 40 a init in
+  snd r = RError PSO /\ leaked (fst r) = [] /\ idle_regs (fst r) = true /\ log (fst r) = [1001%nat; 1%nat].
+Proof. vm_compute. auto. Qed.
+
+(* 3. whole histories: idle after every history of API calls that neither gets stuck nor runs into a deviation. *)
+Theorem history_idle : forall lim faults fixed fuel ops st,
+  idle_regs st = true ->
+  snd (run_calls lim faults fixed fuel ops st) = true ->
+  no_new_deviation fixed st (fst (run_calls lim faults fixed fuel ops st)) ->
+  idle_regs (fst (run_calls lim faults fixed fuel ops st)) = true.
+Proof. exact Proofs.history_idle. Qed.
+
+(* 4. nested_entry_restored — for EVERY node (every tree) started in ANY state (TopOK only says: an empty call stack
+      means the top-level Go context): a node that completes restores every register and stack of its caller; a
+      native action that panics leaves everything but sp as it found it, and the two error-returning conventions
+      (Callable, RunProgram) restore sp as well. *)
+Theorem nested_entry_restored : forall lim faults fixed fuel nd s,
+  TopOK s ->
+  no_new_deviation fixed s (fst (exec lim faults fixed fuel nd s)) ->
+  match snd (exec lim faults fixed fuel nd s) with
+  | ONorm => regs (fst (exec lim faults fixed fuel nd s)) = regs s
+  | OPanic _ =>
+      same_but_sp s (fst (exec lim faults fixed fuel nd s)) /\
+      (match nd with NCallable _ _ | NRun _ _ => regs (fst (exec lim faults fixed fuel nd s)) = regs s | _ => True end)
+  | _ => True
+  end.
+Proof. exact Proofs.nested_entry_restored. Qed.
+
+Example nested_entry_restored_nonvacuous :
+  (* a native function (called from JS at depth 2) calls back a JS function that overflows the stack at limit 6 *)
+  let s := set_cs [mkCtx true 0 1 0; halt_ctx] (set_sb 2 (set_sp 2 init)) in
+  let r := exec (Some 6%nat) [] false 40 (NCallable true [Rec]) s in
+  snd r = OPanic PSO /\ regs (fst r) = regs s /\ leaked (fst r) = [].
+Proof. vm_compute. auto. Qed.
+
+(* 5. next_run_equivalent — an idle runtime with an empty job queue IS a fresh runtime that carries only the
+      completed-effects log (plus the interrupt flag, which the API documents as persistent, and the harness's probe
+      counter / observation fields): every later call behaves identically on both. *)
+Theorem next_run_equivalent : forall lim faults fixed fuel a s,
+  idle_regs s = true -> jq s = [] ->
+  api_exec lim faults fixed fuel a s =
+  api_exec lim faults fixed fuel a (fresh_with (log s) (pcount s) (intr s) (trace s) (leaked s)).
+Proof. exact Proofs.next_run_equivalent. Qed.
+
+(* 6. The snapshot/restore lemma of handleThrow, for EVERY state: a frame tf whose snapshot was taken at s0, ANY later
+      state s that piled contexts xs, iterator records ys, k references on s0's stacks, any frames [above] that the
+      payload skips; unwinding lands exactly on s0's stacks, scope and sp (+1 for the caught value); prg/sb/args are
+      those saved by the lowest piled context; a JS exception closes exactly the dropped iterators, an uncatchable
+      payload closes none (F12 repaired). *)
+Theorem handleThrow_restores : forall p tf s0 above below s xs ys k,
+  snap_of tf s0 -> skippable p tf = false -> forallb (skippable p) above = true ->
+  ts s = above ++ tf :: below -> extends s0 s xs ys k ->
+  let r := handle_throw p s in
+  let s' := fst r in
   cs s' = cs s0 /\ its s' = its s0 /\ refs s' = refs s0 /\ stash s' = stash s0 /\
-  prg s' = prg s0 /\ sb s' = sb s0 /\ args s' = args s0 /\
-  sp s' = (if negb m && c then sp s0 + 1 else sp s0) /\
-  tl (ts s') = ts s0 /\ length (ts s') = S (length (ts s0)) /\
-  log s' = log s ++ map close_ev ys /\
-  snd (handle_throw p s) =
-    (if m then OUnwound p else if c then OCaught (length (ts s0)) HCatch p else OCaught (length (ts s0)) HFin p).
+  sp s' = (if negb (t_marker tf) && t_catch tf then sp s0 + 1 else sp s0) /\
+  (prg s', sb s', args s') = bottom_regs xs s /\
+  ts s' = flagged tf :: below /\
+  log s' = (if catchable p then log s ++ map close_ev ys else log s) /\
+  leaked s' = leaked s /\ jq s' = jq s /\ intr s' = intr s /\ pcount s' = pcount s /\ trace s' = trace s /\
+  snd r = (if t_marker tf then OUnwound p
+           else if t_catch tf then OCaught (length below) HCatch p else OCaught (length below) HFin p).
 Proof. exact Proofs.handleThrow_restores. Qed.
 
 Example handleThrow_restores_nonvacuous :
-  (* try { f() -> for-of -> throw }: two contexts, one iterator above the frame *)
   let s0 := set_sp 4 (set_stash 1 init) in
   let s := set_its [7%nat] (set_cs [mkCtx true 0 5 0; mkCtx false 0 (-1) 0] (set_sp 9 (push_try false true false s0))) in
   regs (fst (handle_throw PCatch s)) = regs (set_sp 5 (set_ts [mkTf 0 0 0 4 1 false false false] s0))
-  /\ log (fst (handle_throw PCatch s)) = [1007%nat].
+  /\ log (fst (handle_throw PCatch s)) = [1007%nat] /\ log (fst (handle_throw PSO s)) = [].
 Proof. vm_compute. auto. Qed.
 
-(* 2. handleThrow applied twice at a marker frame (vm.throw, then runTryInner's recover) is the same as once. *)
-Theorem handleThrow_idem : forall p s0 above s xs ys k,
-  let tf := new_frame true false false s0 in
-  forallb (skippable p) above = true ->
-  ts s = above ++ tf :: ts s0 ->
-  extends s0 s xs ys k ->
+Theorem handleThrow_idem : forall p tf s0 above below s xs ys k,
+  snap_of tf s0 -> t_marker tf = true -> forallb (skippable p) above = true ->
+  ts s = above ++ tf :: below -> extends s0 s xs ys k ->
   let s1 := fst (handle_throw p s) in
   regs (fst (handle_throw p s1)) = regs s1 /\ snd (handle_throw p s1) = snd (handle_throw p s) /\
-  log (fst (handle_throw p s1)) = log s1.
+  log (fst (handle_throw p s1)) = (if catchable p then log s1 ++ [] else log s1).
 Proof. exact Proofs.handleThrow_idem. Qed.
 
-(* 3. For every try stack whatsoever an uncatchable payload (stack overflow, interrupt, foreign panic) is never
-      delivered to a JS catch/finally handler; and handleThrow never grows the try stack. *)
 Theorem uncatchable_never_caught : forall p s, catchable p = false -> snd (handle_throw p s) = OUnwound p.
 Proof. exact Proofs.uncatchable_never_caught. Qed.
 
 Theorem handleThrow_shrinks : forall p s, (length (ts (fst (handle_throw p s))) <= length (ts s))%nat.
 Proof. exact Proofs.handleThrow_shrinks. Qed.
 
-(* 4. nested_entry_restored — the Go-level recover boundary vm.try (used by Callable, ForOf, Try, Object.Get
-      getters, promise jobs): for EVERY computation f run inside it (any execution tree), if f either returns with
-      the registers it was entered with or panics leaving the try stack balanced above the boundary's marker
-      (contexts / iterator records / references may be piled on top of the caller's), then the caller's sp, sb,
-      args, prg, scope and all four stacks are restored exactly, whatever the payload. *)
-Theorem nested_entry_restored : forall (f : state -> state * outcome) s,
-  let s1 := push_try true false false s in
-  (snd (f s1) = ONorm -> regs (fst (f s1)) = regs s1) ->
-  (forall p, snd (f s1) = OPanic p -> balanced_panic s1 (fst (f s1))) ->
-  (snd (f s1) = ONorm \/ exists p, snd (f s1) = OPanic p) ->
-  regs (fst (vm_try f s)) = regs s.
-Proof. exact Proofs.vm_try_restores. Qed.
-
-Example nested_entry_restored_nonvacuous :
-  (* a native function calls back a JS function that overflows the stack at limit 6: registers restored *)
-  let s := set_cs [mkCtx true 0 1 0; halt_ctx] (set_sb 2 (set_sp 2 init)) in
-  regs (fst (exec (Some 6%nat) [] false 40 (NCallable true [Rec]) s)) = regs s.
-Proof. vm_compute. auto. Qed.
-
-(* 5. The current tree does NOT restore the idle state in four situations; each is exhibited by the faithful model
-      (and replayed on the implementation by the correspondence check), and in each the repaired algorithm is idle. *)
-Theorem idle_refuted_F16 : exists lim faults a, idle_after lim faults false a = false /\ idle_after lim faults true a = true.
+(* 7. The guard of 1 is needed: the open findings, exhibited by the faithful model (each replayed on the implementation
+      by the correspondence check); in each the repaired algorithm is idle, and the ghost list names the finding. *)
+Theorem idle_refuted_F16 : exists lim faults a,
+  idle_after lim faults false a = false /\ idle_after lim faults true a = true /\ deviations lim faults a = [16%nat].
 Proof. exact Proofs.idle_refuted_F16. Qed.
-Theorem idle_refuted_F16_overflow : exists lim faults a, idle_after lim faults false a = false /\ idle_after lim faults true a = true.
+Theorem idle_refuted_F16_overflow : exists lim faults a,
+  idle_after lim faults false a = false /\ idle_after lim faults true a = true /\ deviations lim faults a = [16%nat].
 Proof. exact Proofs.idle_refuted_F16_overflow. Qed.
-Theorem idle_refuted_F17 : exists lim faults a, idle_after lim faults false a = false /\ idle_after lim faults true a = true.
-Proof. exact Proofs.idle_refuted_F17. Qed.
-Theorem idle_refuted_F22 : exists lim faults a, idle_after lim faults false a = false /\ idle_after lim faults true a = true.
+Theorem idle_refuted_F22 : exists lim faults a,
+  idle_after lim faults false a = false /\ idle_after lim faults true a = true /\ deviations lim faults a = [22%nat; 22%nat].
 Proof. exact Proofs.idle_refuted_F22. Qed.
-Theorem nested_refuted_F21 : nested_regs false <> nested_regs true.
+Theorem nested_refuted_F21 : nested_regs false <> nested_regs true /\ deviations (Some 2%nat) [] w21 = [21%nat].
 Proof. exact Proofs.nested_refuted_F21. Qed.
+(* F17 is repaired in /repo (60d9770): its former witness is idle under the current algorithm *)
+Theorem idle_F17_repaired : idle_after (Some 0%nat) [] false w17 = true /\ deviations (Some 0%nat) [] w17 = [].
+Proof. exact Proofs.idle_F17_repaired. Qed.
 
+Print Assumptions idle_restored_partial.
+Print Assumptions idle_restored.
+Print Assumptions history_idle.
+Print Assumptions nested_entry_restored.
+Print Assumptions next_run_equivalent.
 Print Assumptions handleThrow_restores.
 Print Assumptions handleThrow_idem.
 Print Assumptions uncatchable_never_caught.
 Print Assumptions handleThrow_shrinks.
-Print Assumptions nested_entry_restored.
 Print Assumptions idle_refuted_F16.
 Print Assumptions idle_refuted_F16_overflow.
-Print Assumptions idle_refuted_F17.
 Print Assumptions idle_refuted_F22.
 Print Assumptions nested_refuted_F21.
+Print Assumptions idle_F17_repaired.
